@@ -323,6 +323,45 @@ def directed(ctx, prefix="C03"):
                 break
 
 
+def from_tangent_stream(ctx, n, prefix="C03"):
+    """Conic.from_tangent(l, a, b, c, d) has two solutions; the one returned must not depend on the representative of any
+    argument — also when one of the lines ac, bd, ab, cd is parallel to the tangent (auxiliary point at infinity)"""
+    import geometer as g
+    from proto import proj_close_nn
+    rng = ctx.rng
+    for k in range(n):
+        while True:
+            a, b, c, d = ([rng.randint(-5, 5), rng.randint(-5, 5)] for _ in range(4))
+            l = [rng.randint(-4, 4), rng.randint(-4, 4), rng.randint(-4, 4)]
+            if not any(l[:2]):
+                continue
+            if k % 2 == 0:
+                # make ac parallel to the tangent: c = a + t * (direction of l)
+                t = rng.choice([1, 2, -1, 3])
+                c = [a[0] - t * l[1], a[1] + t * l[0]]
+            pts = [a, b, c, d]
+            if len({tuple(q) for q in pts}) < 4 or any(l[0] * q[0] + l[1] * q[1] + l[2] == 0 for q in pts):
+                continue
+            if any(abs(np.linalg.det(np.array([[*pts[i], 1], [*pts[j], 1], [*pts[m], 1]], dtype=float))) < 0.5 for i in range(4) for j in range(i) for m in range(j)):
+                continue
+            break
+        L, P = g.Line(np.array(l, dtype=float)), [g.Point(np.array(q + [1], dtype=float)) for q in pts]
+        base = call_impl(lambda: g.Conic.from_tangent(L, *P))
+        if base[0] != "ok" or base[1].is_degenerate:
+            continue
+        pos = rng.randrange(5)
+        lam = rng.choice([-1.0, -3.0, 2.0, 0.5, -0.25])
+        args = [L] + P
+        args[pos] = type(args[pos])(np.asarray(args[pos].array) * lam)
+        desc = f"from_tangent tangent={l} points={pts} ({'ac parallel to the tangent' if k % 2 == 0 else 'generic'}); argument {pos} scaled by {lam}"
+        ctx.case(desc)
+        ctx.count("from_tangent:" + ("parallel" if k % 2 == 0 else "generic"))
+        r = call_impl(lambda: g.Conic.from_tangent(*args))
+        if r[0] != "ok" or not proj_close_nn(base[1].array, r[1].array, rtol=1e-7):
+            ctx.disagree(f"{prefix}:from_tangent:{'parallel' if k % 2 == 0 else 'generic'}:arg{min(pos, 1)}", desc, np.round(np.asarray(base[1].array), 6).tolist(),
+                         r[1:3] if r[0] != "ok" else np.round(np.asarray(r[1].array), 6).tolist(), replay=[desc])
+
+
 def polyhedron_eq_stream(ctx, n, prefix="C03"):
     """== of polyhedra is symmetric and compares the SETS of faces: a polyhedron with a repeated face (given by another
     representative / start vertex / direction) is not equal to one with that face replaced by a different one, in either order"""
@@ -406,6 +445,7 @@ def correspondence(ctx):
         scaled = rescale(args[pos], lam, rng)
         one_case(ctx, table, name, names, args, pos, lam, scaled)
     directed(ctx)
+    from_tangent_stream(ctx, ctx.budget(40, 400))
     polyhedron_eq_stream(ctx, ctx.budget(15, 150))
     from props import c13
     c13.int_homogeneous_centres(ctx, ctx.budget(30, 300), prefix="C03")
